@@ -987,6 +987,36 @@ impl Watch {
         self.common(&[], Ctx { st_before: Some(st_before), local: true, what, ..Default::default() });
     }
 
+    /// The automatic-behaviour switches are plain configuration: no events, no other state; each
+    /// is read when the next packet is processed.
+    pub fn set_auto(&mut self, which: u8, on: bool) {
+        if self.failed() {
+            return;
+        }
+        if let Some(c) = self.calls.as_mut() {
+            c.push(WCall::SetAuto(which, on));
+        }
+        let what = format!("set_auto[{which}]({on})");
+        let st_before = self.m.st;
+        let ok = self.guarded(&what, &[], |ep| match which {
+            0 => ep.set_auto_pub_response(on),
+            1 => ep.set_auto_ping_response(on),
+            2 => ep.set_auto_map(on),
+            _ => ep.set_auto_replace(on),
+        });
+        if ok.is_none() {
+            return;
+        }
+        match which {
+            0 => self.opts.auto_pub = on,
+            1 => self.opts.auto_ping = on,
+            2 => self.opts.auto_map = on,
+            _ => self.opts.auto_replace = on,
+        }
+        self.stats.hit("option_toggled_while_running");
+        self.common(&[], Ctx { st_before: Some(st_before), local: true, what, ..Default::default() });
+    }
+
     /// Crash: drop the object, keep only the durable export, build a fresh object of the
     /// same kind and options and restore it.
     pub fn crash_restore(&mut self, mangle: ExportMangle) {
